@@ -17,7 +17,7 @@
 (*   free  a non-canonical spelling of a valid element (unreduced coordinate, redundant identity /    *)
 (*         sign form): C13 does not claim uniqueness, a decoder may accept (then it must return the   *)
 (*         denoted element) or refuse.                                                                *)
-(* TLC checks, exhaustively over every string of the right length and of the lengths +-1, over every  *)
+(* TLC checks, exhaustively over every string of every length from 0 to the right length + 1, over every  *)
 (* element, and over the Choose / Encode / Mutate / Decode / Re-encode machine:                       *)
 (*   RoundTrip, Injective, Sound, RejectsBad, ReEncode, NoPanic       (the property, on Enc and Dec)  *)
 (*   EncSem, TableJustified                                           (the table is what C13 demands) *)
@@ -119,7 +119,7 @@ Bit(v, i) == (v \div Pow2(i)) % 2
 Low(v, n) == v % Pow2(n)
 Zeros(n) == [i \in 1..n |-> 0]
 AllZero(d) == \A i \in 1..Len(d) : d[i] = 0
-PANIC == <<"PANIC">>
+PANIC == <<-1>>                              \* an encoder that panics (digits are never negative)
 
 (****************************************************************************************)
 (* the rule table (shared with ElemCodecTrace)                                          *)
@@ -158,7 +158,7 @@ NoSem == [fl |-> NoFl, idform |-> "no", red |-> TRUE, els |-> {}]
 (* SEC1-style formats (k256, p256):  02/03 || x   and   04 || x || y,  big endian       *)
 (* reserved identity: 02 || 0...0 and 04 || 0...0 || 0...0                              *)
 (****************************************************************************************)
-EncSec1c(e) == IF e = O THEN <<2>> \o Zeros(F.nd) ELSE <<2 + e[2] % 2>> \o DigBE(e[1], F.nd)
+EncSec1c(e) == IF e = O THEN <<2>> \o Zeros(F.nd) ELSE <<2 + (e[2] % 2)>> \o DigBE(e[1], F.nd)
 DecSec1c(d) == IF Len(d) # 1 + F.nd THEN {}
                ELSE IF d[1] \notin {2, 3} THEN {}
                ELSE LET x == ValBE(Slot(d, 1, 1)) % P IN                   \* SetBytes reduces
@@ -398,8 +398,11 @@ Bools(d) == LET m == Sem(d) IN
              valid |-> m.els # {} /\ \A e \in m.els : Valid(e),
              canon |-> \E e \in m.els : Enc(e) = d]
 \* what C13 demands of a decoder on d, read off the encoder and the semantics
+\* the affine constructors have no spelling of the Weierstrass point at infinity: it is outside their round trip
+Encodable(e) == ~(F.name \in {"affine", "affinex"} /\ C.kind = "weier" /\ e = O)
+EncImage == {Enc(e) : e \in {x \in Elems : Encodable(x)}}
 Demand(d) == LET b == Bools(d) IN
-             IF \E e \in Elems : Enc(e) = d THEN "acc"
+             IF d \in EncImage THEN "acc"
              ELSE IF ~b.lenOK \/ ~b.flagsOK \/ ~b.valid THEN "rej" ELSE "free"
 \* a name for the kind of string (used by the machine and by the driver's classes)
 ClassOf(d) == LET b == Bools(d)
@@ -424,7 +427,7 @@ CodeConforms(d) == LET v == Verdict(Bools(d))
                       /\ Dec(d) \subseteq m.els
 RoundTrip(e) == Enc(e) # PANIC /\ Dec(Enc(e)) = {e}
 RoundTripModSign(e) == Enc(e) # PANIC /\ e \in Dec(Enc(e)) /\ Dec(Enc(e)) \subseteq {e, NegP(e)}
-Injective(e) == \A e2 \in Elems : e2 # e => Enc(e2) # Enc(e)
+Injective(e) == \A e2 \in Elems : e2 # e /\ Encodable(e2) => Enc(e2) # Enc(e)
 InjectiveModSign(e) == \A e2 \in Elems : e2 \notin {e, NegP(e)} => Enc(e2) # Enc(e)
 EncSem(e) == LET d == Enc(e) IN d # PANIC /\ LenOK(d) /\ FlagRule(F.name, Sem(d).fl) /\ e \in Sem(d).els
 NoPanicE(e) == Enc(e) # PANIC
@@ -448,14 +451,15 @@ StrDig == IF F.name = "affine" THEN Fp ELSE Dig
 (****************************************************************************************)
 (* families of behaviours                                                               *)
 (****************************************************************************************)
-Lens == IF AffineFmt THEN {2} ELSE IF F.name = "fbered" THEN 0..(F.nd + 1) ELSE {n \in {L - 1, L, L + 1} : n >= 0}
-Strings == IF F.name = "affinex" THEN {<<x, b>> : x \in Fp, b \in {0, 1}}
-           ELSE UNION {[1..n -> StrDig] : n \in Lens}
+MaxLen == IF AffineFmt THEN 2 ELSE IF F.name = "fbered" THEN F.nd + 2 ELSE L + 1
+NextDig(d) == IF F.name = "affinex" /\ Len(d) = 1 THEN {0, 1} ELSE StrDig
 Idle == el = 0 /\ mut = NoMut /\ out = {} /\ re = {}
-InitS == ph = "str" /\ s \in Strings /\ Idle
-InitE == ph = "elem" /\ el \in Elems /\ s = <<>> /\ mut = NoMut /\ out = {} /\ re = {}
+\* "strings": every string of every length 0 .. L + 1, built digit by digit (so that the workers share the enumeration)
+InitS == ph = "str" /\ s = <<>> /\ Idle
+NextS == Len(s) < MaxLen /\ \E v \in NextDig(s) : s' = Append(s, v) /\ UNCHANGED <<ph, el, mut, out, re>>
+InitE == ph = "elem" /\ el \in {x \in Elems : Encodable(x)} /\ s = <<>> /\ mut = NoMut /\ out = {} /\ re = {}
 InitM == ph = "choose" /\ s = <<>> /\ Idle
-Choose(e) == ph = "choose" /\ ph' = "chosen" /\ el' = e /\ UNCHANGED <<s, mut, out, re>>
+Choose(e) == ph = "choose" /\ Encodable(e) /\ ph' = "chosen" /\ el' = e /\ UNCHANGED <<s, mut, out, re>>
 Encode == ph = "chosen" /\ Enc(el) # PANIC /\ ph' = "encoded" /\ s' = Enc(el) /\ UNCHANGED <<el, mut, out, re>>
 Mutate(m) == ph = "encoded" /\ ~AffineFmt /\ ph' = "mutated" /\ s' = Apply(m, s) /\ mut' = m /\ UNCHANGED <<el, out, re>>
 Decode == ph \in {"encoded", "mutated"} /\ ph' = "decoded" /\ out' = Dec(s) /\ UNCHANGED <<el, s, mut, re>>
@@ -478,12 +482,12 @@ XCase(c) == CASE c[1] = "affine" -> [op |-> "affine", x |-> c[2], y |-> c[3], ok
 InitX == ph = "x" /\ s \in XCases /\ Idle /\ Emit(XCase(s))
 
 Init == CASE Family = "strings" -> InitS [] Family = "elems" -> InitE [] Family = "machine" -> InitM [] Family = "xgen" -> InitX
-Next == IF Family = "machine" THEN NextM ELSE UNCHANGED vars
+Next == CASE Family = "machine" -> NextM [] Family = "strings" -> NextS [] OTHER -> UNCHANGED vars
 
 (****************************************************************************************)
 (* invariants                                                                           *)
 (****************************************************************************************)
-\* family "strings": every string of the right length and of the lengths +-1
+\* family "strings": every string of length 0 .. L + 1
 S_Sound == ph = "str" => Sound(s)
 S_RejectsBad == ph = "str" => RejectsBad(s)
 S_ReEncode == ph = "str" => ReEncode(s)
